@@ -2,6 +2,7 @@ package c17
 
 import (
 	"github.com/kercylan98/minotaur/toolkit/collection"
+	"strconv"
 )
 
 // ops of duplicate.go, clone.go, merge.go, convert.go, filter.go, drop.go (deterministic outputs;
@@ -11,6 +12,7 @@ var inPlaceOps = map[string]bool{
 	"DeduplicateSliceInPlace":            true,
 	"DeduplicateSliceInPlaceWithCompare": true,
 	"ReverseSlice":                       true,
+	"SwapSlice":                          true,
 	"ClearSlice":                         true,
 	"DropSliceByIndices":                 true,
 	"DropSliceByCondition":               true,
@@ -282,6 +284,47 @@ func editOps() map[string]handler {
 				return badOp
 			}
 			return c.runInPlace(t, backing, func(p *[]int) { collection.ReverseSlice(p) })
+		},
+		// ---------------------------------------------------------------- item.go, calc.go, map.go
+		"SwapSlice": func(c *ctx, a *A, backing bool) string {
+			t := a.target()
+			i, j := a.int(), a.int()
+			if !a.ok() || t.nilptr {
+				return badOp // SwapSlice dereferences its pointer unconditionally: not part of the suite
+			}
+			return c.runInPlace(t, backing, func(p *[]int) { collection.SwapSlice(p, i, j) })
+		},
+		"SliceSum": func(c *ctx, a *A, _ bool) string {
+			s := c.sl(a.ints())
+			h := sumIdxTable[a.next()]
+			if !a.ok() || h == nil {
+				return badOp
+			}
+			return strconv.Itoa(collection.SliceSum(s, h)) + c.args()
+		},
+		"MapSum": func(c *ctx, a *A, _ bool) string {
+			m := c.mp(a.m())
+			h := sumKVTable[a.next()]
+			if !a.ok() || h == nil {
+				return badOp
+			}
+			return strconv.Itoa(collection.MapSum(m, h)) + c.args()
+		},
+		"MappingFromSlice": func(c *ctx, a *A, _ bool) string {
+			s := c.sl(a.ints())
+			g := a.getter()
+			if !a.ok() {
+				return badOp
+			}
+			return fInts(collection.MappingFromSlice[[]int, []int](s, g)) + c.args()
+		},
+		"MappingFromMap": func(c *ctx, a *A, _ bool) string {
+			m := c.mp(a.m())
+			g := a.getter()
+			if !a.ok() {
+				return badOp
+			}
+			return fMap(collection.MappingFromMap[map[int]int, map[int]int](m, g)) + c.args()
 		},
 		// ---------------------------------------------------------------- filter.go
 		"FilterOutByIndices": func(c *ctx, a *A, _ bool) string {
